@@ -85,12 +85,16 @@ Definition grow (r : read_res) (receiver : vhdr) (do_grow : bool) : hist_res :=
 
 (* the header of the subject after its history; (n, cols, size) is the nominal shape, w its word size,
    words = cols*size (vectors) or rows*cols_in*cols_out*size (matrices) *)
-Definition hist_hdr (vec : bool) (n cols size w words hist hp1 hp2 : Z) : hist_res :=
+Definition hist_hdr (vec chk : bool) (n cols size w words hist hp1 hp2 : Z) : hist_res :=
   let plain := mkV n cols size size (n * words * w) w in
   if hist =? 0 then HOk plain
   else if hist =? 1 then HOk (mkV n cols size (size + hp1) (n * cols * (size + hp1) * w) w)
   else if (hist =? 7) || (hist =? 8) then HOk plain
-  else if hist =? 9 then HOk (mkV n cols size size (Z.max 0 (n * words * w - 8 * hp1)) w)
+  else if hist =? 9 then
+    (* from_data on a buffer 8*hp1 bytes short: VecZnx / ScalarZnx (chk) assert since 2067fe8, the others do not *)
+    let len := Z.max 0 (n * words * w - 8 * hp1) in
+    if chk then match v_from_data_checked len n cols size w with Some v => HOk v | None => HBad end
+    else HOk (v_from_data len n cols size w)
   else if hist =? 11 then let n' := if hp1 =? 0 then Z.max (n / 2) 1 else n * 2 in HOk (mkV n' cols size size (n' * words * w) w)
   else if negb vec then HBad
   else if hist =? 2 then HOk (v_realloc (v_alloc n cols hp2 8) size)
@@ -132,7 +136,7 @@ Definition run_c17 (code : Z) (ps : list Z) (vs : list (list Z)) : option (list 
   | Some ks =>
     let '(cols, size, words, kind) := nominal ps ks subj in
     let w := w_of kind be in
-    match hist_hdr (kind =? K_Z) n cols size w words hist hp1 hp2 with
+    match hist_hdr (kind =? K_Z) ((kind =? K_Z) || (kind =? K_S)) n cols size w words hist hp1 hp2 with
     | HBad => None
     | HRejected v => Some [[2; 1; 0; 1]; hdr_list v]
     | HOk v =>
